@@ -624,6 +624,21 @@ func (ca *catchAnalysis) run(fn *ssa.Function, init flagState) ([]dispatchSite, 
 					}
 					name, isDisp := ca.dispatchCallee(ci)
 					args := ci.args()
+					// a closure handed to a module helper (`v.eachField(structVal, func(...) { ...; child.process(subCtx) })`)
+					// runs during the call: whatever it can leave on a context it captured is there afterwards
+					var closureExits []flagState
+					if ci.static != nil && ci.static.Blocks != nil && inModule(funcPkgPath(ci.static)) {
+						for _, a := range args {
+							if mc, ok := cv(a).(*ssa.MakeClosure); ok {
+								if cl, ok := mc.Fn.(*ssa.Function); ok && cl.Blocks != nil && !ca.busy[cl] {
+									ca.busy[cl] = true
+									_, cexit := ca.run(cl, st)
+									delete(ca.busy, cl)
+									closureExits = append(closureExits, cexit)
+								}
+							}
+						}
+					}
 					for ai, a := range args {
 						av := unifyLoads(cvi(a))
 						if !ca.isCtxVal(av) {
@@ -747,6 +762,46 @@ func (ca *catchAnalysis) run(fn *ssa.Function, init flagState) ([]dispatchSite, 
 						case ci.dynamic:
 							// a callback receiving the context may call ctx.AddIssue
 							ca.applyAddIssue(cur)
+						}
+					}
+					for _, ce := range closureExits {
+						st.joinFrom(ce)
+					}
+					// a context carried into a module helper inside a small struct (`fields := children{ctx: subCtx, ...};
+					// fields.runWith(child, ...)`): the helper ran children on it; nothing is known about what they left
+					if ci.static != nil && ci.static.Blocks != nil && inModule(funcPkgPath(ci.static)) {
+						for _, a := range args {
+							if !P.carriesCtx(a.Type()) {
+								continue
+							}
+							var holder *ssa.Alloc
+							switch x := a.(type) {
+							case *ssa.Alloc:
+								holder = x
+							case *ssa.UnOp:
+								holder, _ = x.X.(*ssa.Alloc)
+							}
+							if holder == nil || holder.Referrers() == nil {
+								continue
+							}
+							for _, rf := range *holder.Referrers() {
+								fa, ok := rf.(*ssa.FieldAddr)
+								if !ok {
+									continue
+								}
+								for _, stf := range storesTo(fa) {
+									av := unifyLoads(cvi(stf.Val))
+									if !ca.isCtxVal(av) {
+										continue
+									}
+									cur := get(st, av)
+									for _, fl := range ca.flags {
+										if ca.everSet(fl) {
+											cur[fl] = true
+										}
+									}
+								}
+							}
 						}
 					}
 				}
